@@ -97,6 +97,40 @@ class DefUse:
             return ("disc", self.origin_place(rv.place, depth + 1))
         return ("local", local)
 
+    def root_local(self, place, depth=0):
+        """the single-definition local a place is a pure copy of (through moves, copies and
+        tuple packing/unpacking); None if the chain meets a multiply-defined local"""
+        if depth > 24:
+            return None
+        proj = list(place.proj)
+        local = place.local
+        while True:
+            d = self.single(local)
+            if d is None:
+                return None
+            kind, _bi, x = d
+            if kind == "call":
+                return ("root", local) if not proj else None
+            rv = x.rv
+            if rv.kind == "use" and rv.ops[0].kind in ("copy", "move"):
+                sp = rv.ops[0].place
+                local = sp.local
+                proj = list(sp.proj) + proj
+                depth += 1
+                if depth > 24:
+                    return None
+                continue
+            if rv.kind == "agg" and rv.agg[0] == "tuple" and proj and proj[0][1:].isdigit() and \
+                    int(proj[0][1:]) < len(rv.ops):
+                op = rv.ops[int(proj[0][1:])]
+                if op.kind not in ("copy", "move"):
+                    return None
+                local = op.place.local
+                proj = list(op.place.proj) + proj[1:]
+                depth += 1
+                continue
+            return ("root", local) if not proj else ("root", local, tuple(proj))
+
     def origin(self, op, depth=0):
         if op.kind == "const":
             i = op.info
